@@ -214,6 +214,7 @@ func (g *Generator) generateStructSchemaWithRefs(t reflect.Type) *openapi3.Schem
 		// Generate field schema with $ref support.
 		fieldSchema := g.generateFieldSchemaWithRefs(field.Type, field)
 
+		fieldSchema = applyStringOption(field, fieldSchema)
 		if err := parseJSONSchemaTags(field.Tag, fieldSchema); err != nil {
 			continue
 		}
@@ -478,6 +479,7 @@ func convertStructToSchemaWithDepthLimit(t reflect.Type, visited map[reflect.Typ
 			fieldSchema = convertTypeWithDepthLimit(fieldType, visited, depth-1)
 		}
 
+		fieldSchema = applyStringOption(field, fieldSchema)
 		if err := parseJSONSchemaTags(field.Tag, fieldSchema); err != nil {
 			continue
 		}
@@ -586,6 +588,7 @@ func convertStructToSchemaWithVisited(t reflect.Type, visited map[reflect.Type]*
 		fieldSchema := convertReflectTypeToSchemaWithVisited(field.Type, visited)
 
 		// Parse jsonschema tags and apply to schema
+		fieldSchema = applyStringOption(field, fieldSchema)
 		if err := parseJSONSchemaTags(field.Tag, fieldSchema); err != nil {
 			// Log error but continue processing
 			continue
@@ -692,6 +695,37 @@ func jsonFields(t reflect.Type) []reflect.StructField {
 		level = next
 	}
 	return fields
+}
+
+// applyStringOption honours the ",string" option of the json tag: encoding/json then writes
+// strings, numbers and booleans as JSON strings.
+func applyStringOption(field reflect.StructField, schema *openapi3.Schema) *openapi3.Schema {
+	parts := strings.Split(field.Tag.Get("json"), ",")
+	quoted := false
+	for _, opt := range parts[1:] {
+		if opt == "string" {
+			quoted = true
+		}
+	}
+	if !quoted {
+		return schema
+	}
+	t := field.Type
+	for t.Kind() == reflect.Ptr {
+		t = t.Elem()
+	}
+	switch t.Kind() {
+	case reflect.String, reflect.Bool, reflect.Float32, reflect.Float64,
+		reflect.Int, reflect.Int8, reflect.Int16, reflect.Int32, reflect.Int64,
+		reflect.Uint, reflect.Uint8, reflect.Uint16, reflect.Uint32, reflect.Uint64:
+		if encodedTypeSchema(t) != nil {
+			return schema
+		}
+		quotedSchema := openapi3.NewStringSchema()
+		quotedSchema.Description = schema.Description
+		return quotedSchema
+	}
+	return schema
 }
 
 // getJSONFieldName extracts the JSON field name from struct field
@@ -1054,6 +1088,8 @@ func (g *NestedRefGenerator) generateStructSchema(t reflect.Type) *openapi3.Sche
 
 		// Restore path
 		g.currentPath = originalPath
+
+		fieldSchema = applyStringOption(field, fieldSchema)
 
 		// Process jsonschema tags for constraints
 		parseJSONSchemaTags(field.Tag, fieldSchema)
